@@ -76,12 +76,12 @@ def draw_unit_pair(rng, mode=None):
         return f1, u1, f1, u1, "same"
     if mode == "compatible":
         lst = [u for u in FAMILIES[f1] if u != u1]
-        if not lst or f1 == "dimensionless":
-            # single-member family (or the two spellings of "no unit")
-            u2 = FAMILIES[f1][-1]
-            return f1, u1, f1, u2, "same" if f1 != "dimensionless" and u2 == u1 else (
-                "same" if f1 == "dimensionless" else "compatible")
-        return f1, u1, f1, lst[int(rng.integers(0, len(lst)))], "compatible"
+        if not lst:
+            return f1, u1, f1, u1, "same"       # single-member family
+        u2 = lst[int(rng.integers(0, len(lst)))]
+        if {u1, u2} <= {"", "dimensionless"}:
+            return f1, u1, f1, u2, "same"       # two spellings of "no unit"
+        return f1, u1, f1, u2, "compatible"
     # pressure and energy density are the same family spelled twice in FAMILIES? no:
     # families are dimensionally distinct by construction
     f2 = draw_family(rng, exclude=(f1,))
